@@ -39,3 +39,37 @@ theorem C11_tx_binds (hinj : Collisionless H) (thr : Nat) (s : St Node) (evs : L
   exact ⟨by rw [hy, hget], hb2a.symm⟩
 
 end EV.TxCache
+
+namespace EV.HeaderCache
+open EV.Merkle
+
+variable {Node : Type} (H : Node → Node → Node)
+
+/-- **C11 (the header proof binds).**  Collision-free `H`: in every run of the header-cache model
+(any number of concurrent requests, back-outs cut in two, reads cut in three) an answered
+`(branch, root)` for `(height, cp_height)` is binding — for the chain `S` that was visible at some
+moment of the request, `root` is the merkle root of its first `cp+1` block hashes, and any block
+hash `y` with any branch of the same length that `root_from_proof` folds to `root` at position
+`height` is `S[height]`, with exactly the branch handed out. -/
+theorem C11_header_binds [DecidableEq Node] (hinj : Collisionless H) (s : St Node) (evs : List (Ev Node))
+    (h0 : Init H s) :
+    ∀ r ∈ (run H Cfg.fixed s evs).reqs, ∀ br root, r.pc = .done (.answer br root) →
+      ∃ S ∈ r.seen, r.length ≤ S.length ∧ ∃ (hidx : r.index < (S.take r.length).length),
+        ∀ (y : Node) (nodes : List Node), nodes.length = br.length →
+          rootFromProof H y nodes r.index = .ok root →
+          y = (S.take r.length)[r.index] ∧ nodes.map .node = br := by
+  intro r hr br root hpc
+  obtain ⟨S, hS, hlen, hbar, hne, hroot⟩ := C11_header_safe H s evs h0 r hr br root hpc
+  obtain ⟨h1, h2⟩ := branchAndRoot_ok_range H hbar
+  have hidx : r.index < (S.take r.length).length := by omega
+  have hl := bar_length H (S.take r.length) r.index false br _ hbar
+  refine ⟨S, hS, hlen, hidx, ?_⟩
+  intro y nodes hnl hv
+  subst hroot
+  obtain ⟨hy, hb2⟩ := bar_binds H hinj (S.take r.length) r.index hidx y nodes (by omega) hv
+  rw [hbar] at hb2
+  injection hb2 with hb2
+  injection hb2 with hb2a _
+  exact ⟨hy, hb2a.symm⟩
+
+end EV.HeaderCache
